@@ -153,6 +153,14 @@ func init() {
 		if err != nil {
 			return cdcObsErr(err)
 		}
+		if !heldUnchanged(b, func() {
+			o2 := jObs(in["obs"])
+			o2.UnixTimestampNanoseconds ^= 0xffff
+			o2.ShouldRetire = !o2.ShouldRetire
+			obsCodec.Encode(o2)
+		}) {
+			return clobbered("ObservationCodec.Encode")
+		}
 		m, merr := cdcObsMsgJ(b)
 		if merr != nil {
 			return J{"harness-error": "cannot unmarshal encoder output: " + merr.Error()}
@@ -253,6 +261,18 @@ func init() {
 		if err != nil {
 			return cdcConfigErr(err)
 		}
+		if !heldUnchanged(b, func() {
+			other := llo.OnchainConfig{Version: c.Version}
+			var d types.ConfigDigest
+			for i := range d {
+				d[i] = 0x5a
+			}
+			other.PredecessorConfigDigest = &d
+			llo.EVMOnchainConfigCodec{}.Encode(other)
+			llo.EVMOnchainConfigCodec{}.Encode(llo.OnchainConfig{Version: c.Version})
+		}) {
+			return clobbered("EVMOnchainConfigCodec.Encode")
+		}
 		res := resOK(hexs(b))
 		if d, derr := (llo.EVMOnchainConfigCodec{}).Decode(b); derr == nil {
 			res["_rt"] = cdcOnchainJ(d)
@@ -347,6 +367,11 @@ func init() {
 		b, err := llo.StandardRetirementReportCodec{}.Encode(llo.RetirementReport{ProtocolVersion: jU32(jget(r, "version")), ValidAfterNanoseconds: jVA(jget(r, "va"))})
 		if err != nil {
 			return resErr("other", err)
+		}
+		if !heldUnchanged(b, func() {
+			llo.StandardRetirementReportCodec{}.Encode(llo.RetirementReport{ProtocolVersion: jU32(jget(r, "version")) ^ 1, ValidAfterNanoseconds: jVA(jget(r, "va"))})
+		}) {
+			return clobbered("RetirementReportCodec.Encode")
 		}
 		var generic struct {
 			ProtocolVersion       json.Number
